@@ -5,21 +5,31 @@ from props._fa_common import TRUSTED, ASSUMPTIONS, TECHNIQUE
 
 PROP = "C04"
 LEVEL = "proof"
-THEOREMS = {"Properties.C04": ["C04_is_empty", "C04_is_deterministic"]}
-LEVEL_TEXT = ("Coq theorems (no axioms): is_empty is exactly 'no word accepted' and is_deterministic is exactly the stated shape, for all automata; "
-              "model tied to /repo by correspondence under several hash seeds.")
+THEOREMS = {"Properties.C04": ["C04_is_empty", "C04_is_deterministic", "C04_is_acyclic", "C04_accepted_words"]}
+LEVEL_TEXT = ("Coq theorems (no axioms), all automata: is_empty is exactly 'no word accepted'; is_deterministic is exactly the stated shape; is_acyclic is exactly "
+              "'no reachable cycle' (modelled by its specification, the path-set search is not mirrored); get_accepted_words(n) (pruned exploration of "
+              "(state, word) pairs, mirrored up to set-iteration order) yields exactly the accepted words of length <= n, each once, also for n=None "
+              "whenever the exploration terminates. Termination of the unbounded mode on finite languages is NOT proved: it is only exercised by the "
+              "correspondence (implementation under an alarm). Model tied to /repo by correspondence under several hash seeds.")
 LEVEL_NOTE = "Trusted: Coq kernel; hand-written model validated by correspondence; Python harness."
-RULE = ("random epsilon-NFA/NFA/DFA (as C01) x {is_empty, is_deterministic}; non-trivial = at least 2 transitions, a start and a final state")
+RULE = ("random epsilon-NFA/NFA/DFA (as C01) x {is_empty, is_deterministic, is_acyclic, get_accepted_words(n) for n in 0..4 and n=None on finite languages}; "
+        "yielded sequences compared as multisets with the model; non-trivial = at least 2 transitions, a start and a final state")
 EXPLANATION = "Theorems in Properties/C04.v + differential correspondence of the query answers."
 
 
 def generate(ctx):
-    n = 400 if ctx.tier == "quick" else 6000
+    n = 1500 if ctx.tier == "quick" else 12000
     cases = []
     for i in range(n):
         names = ctx.rng.choice(["plain", "plain", "int", "adv"])
         spec = falib.rand_fa(ctx.rng, names=names)
-        cases.append({"op": ["is_empty", "is_deterministic"][i % 2], "fa": spec})
+        k = i % 5
+        if k < 3:
+            cases.append({"op": ["is_empty", "is_deterministic", "is_acyclic"][k], "fa": spec})
+        elif k == 3 or not falib.finite_language(spec):
+            cases.append({"op": "get_accepted_words", "fa": spec, "n": ctx.rng.choice([0, 1, 2, 3, 3, 4])})
+        else:
+            cases.append({"op": "get_accepted_words", "fa": spec, "n": None})
     return cases
 
 
